@@ -38,9 +38,24 @@ def run_test_module(module_src: str, test_filter: str, repo: str = REPO, timeout
         env = dict(os.environ)
         env['CARGO_TARGET_DIR'] = os.path.join(scratch(), 'target')
         env['CARGO_NET_OFFLINE'] = 'true'
-        p = subprocess.run(['cargo', 'test', '--offline', '-p', 'zeep-lib', '--lib', test_filter, '--', '--nocapture', '--test-threads', '1'],
-                           cwd=root, env=env, capture_output=True, text=True, timeout=timeout)
-        return p.returncode, p.stdout + '\n' + p.stderr
+        # own process group: on timeout the test binary (a grandchild) is killed too, and what it printed so far is kept
+        import signal
+        import tempfile
+        with tempfile.TemporaryFile(mode='w+', dir=scratch()) as fo:
+            p = subprocess.Popen(['cargo', 'test', '--offline', '-p', 'zeep-lib', '--lib', test_filter, '--', '--nocapture', '--test-threads', '1'],
+                                 cwd=root, env=env, stdout=fo, stderr=subprocess.STDOUT, text=True, start_new_session=True)
+            try:
+                rc = p.wait(timeout=timeout)
+            except subprocess.TimeoutExpired:
+                try:
+                    os.killpg(p.pid, signal.SIGKILL)
+                except ProcessLookupError:
+                    pass
+                p.wait()
+                rc = 124
+            fo.seek(0)
+            outp = fo.read()
+        return rc, outp + ('\nTIMEOUT after %d s' % timeout if rc == 124 else '')
     finally:
         with open(host, 'w', encoding='utf-8') as f:
             f.write(orig)
